@@ -226,8 +226,19 @@ func checkC03(r *Run) error {
 		return err
 	}
 	err = r.verify(e, []string{iohelpPkg}, Selection{FuncFilter: func(k string) bool { return strings.Contains(k, "Bytes") || strings.Contains(k, ".Write") }}, false)
-	r.Explanation = "Encode direction: the ghost trace of every generated byte encoder equals the reference wire function derived from the schema description alone (little-endian fixed-width tokens, u32-prefixed strings and arrays, messages as u32 body length + (index, value)* + 0, unions as u32 length + discriminator + body, enums as their base integer); the byte meaning of each token (digit relation, GUID permutation) is proved on the iohelp bodies. The decode direction (accepting every conformant encoding) is not yet covered."
-	r.Coverage["not_covered"] = "decode direction; map-typed fields"
+	if err != nil {
+		return err
+	}
+	// decode direction, for records built from structs, arrays (of non-array elements), strings, enums and
+	// primitives: the decoded value is what the wire format prescribes for the bytes at each position (DEC)
+	r.Dec = true
+	r.byteTheory = false
+	err = r.decoders(structOnlySchema, r.optsFor(false), func(key string) bool {
+		return strings.HasSuffix(key, ".UnmarshalBebop") || strings.HasSuffix(key, ".DecodeBebop") || isMake(key)
+	})
+	r.Dec = false
+	r.Explanation = "Decode direction (structs, arrays of non-array elements, strings, enums, all primitives; UnmarshalBebop, DecodeBebop and the Make* wrappers): when the decoder succeeds, every field of the decoded value is what a pointwise reference decoding, derived from the schema description alone, prescribes for the bytes of the buffer — or, for the stream decoders, for the bytes the reader delivered — at that field's position — little-endian value of the right width and signedness, u32 count then the elements at their prefix-sum offsets, string length then bytes, GUID permutation, date ticks (clause DEC, with quantified loop invariants). Messages, unions, maps and arrays of arrays are not covered in this direction. Encode direction: the ghost trace of every generated byte encoder equals the reference wire function derived from the schema description alone (little-endian fixed-width tokens, u32-prefixed strings and arrays, messages as u32 body length + (index, value)* + 0, unions as u32 length + discriminator + body, enums as their base integer); the byte meaning of each token (digit relation, GUID permutation) is proved on the iohelp bodies. That every conformant encoding is ACCEPTED (completeness of the decoder) is not covered."
+	r.Coverage["not_covered"] = "decode direction for messages, unions, maps, arrays of arrays; completeness of decoding; map-typed fields on the encode side"
 	_ = fmt.Sprint
 	return err
 }
@@ -239,7 +250,7 @@ func checkC09(r *Run) error {
 			return nonMap(s)
 		}
 		switch s.Name {
-		case "sprims", "mprims0", "sarr0", "srec", "snest", "mmix":
+		case "sprims", "sprimsnd", "sbig", "mprims0", "sarr0", "sarr2", "srec", "snest", "mmix":
 			return true
 		}
 		return false
@@ -256,7 +267,17 @@ func checkC09(r *Run) error {
 			}}, false)
 		}
 	}
-	r.Explanation = "The same schema-derived contract (reference trace, size, frame) is verified against the code generated under every option set of the tier (quick: a pairwise-covering set of 6; thorough: all 32): every variant satisfies the one specification, hence all variants emit the same bytes. The iohelp readers that only option-specific code calls (shared-memory strings, Must* readers) are verified against the same byte-level contracts as their checked counterparts. Equality of decoded values across options is not covered (needs the functional decode contract)."
+	if err == nil {
+		// decode side, for records built from structs, arrays of non-array elements, strings, enums and
+		// primitives: under every option set both decoders satisfy the same pointwise reference decoding (DEC)
+		r.Dec = true
+		r.byteTheory = false
+		err = r.decoders(func(s *basis.Schema) bool { return structOnlySchema(s) && small(s) }, r.optsFor(true), func(key string) bool {
+			return strings.HasSuffix(key, ".UnmarshalBebop") || strings.HasSuffix(key, ".DecodeBebop") || isMake(key)
+		})
+		r.Dec = false
+	}
+	r.Explanation = "The same schema-derived contract (reference trace, size, frame) is verified against the code generated under every option set of the tier (quick: a pairwise-covering set of 6; thorough: all 32): every variant satisfies the one specification, hence all variants emit the same bytes. The iohelp readers that only option-specific code calls (shared-memory strings, Must* readers) are verified against the same byte-level contracts as their checked counterparts. Decode side: for struct-only records the decoders generated under every option set satisfy one and the same pointwise reference decoding of the input (clause DEC), so the options do not change what is decoded from a given input; messages, unions, maps and MustUnmarshalBebop are not covered on the decode side."
 	return err
 }
 
